@@ -24,7 +24,12 @@ import (
 	"github.com/sarchlab/akita/v4/mem/mem"
 	"github.com/sarchlab/akita/v4/sim"
 	"github.com/sarchlab/akita/v4/simulation"
+	"github.com/sarchlab/mgpusim/v4/amd/benchmarks/amdappsdk/matrixtranspose"
+	"github.com/sarchlab/mgpusim/v4/amd/benchmarks/amdappsdk/vectoradd"
+	"github.com/sarchlab/mgpusim/v4/amd/benchmarks/heteromark/fir"
+	"github.com/sarchlab/mgpusim/v4/amd/driver"
 	"github.com/sarchlab/mgpusim/v4/amd/samples/runner/timingconfig"
+	"github.com/sarchlab/mgpusim/v4/amd/sampling"
 	"github.com/sarchlab/mgpusim/v4/amd/timing/rdma"
 
 	ab "verifharness/akitabench"
@@ -76,6 +81,8 @@ var portKeys = map[string]string{
 }
 var reComp = regexp.MustCompile(`^(?:R|GPU\[)(\d+)(?:\]\.RDMA)?\.(\w+)$`)
 var reL2 = regexp.MustCompile(`^GPU\[(\d+)\]\.L2Cache\[(\d+)\]\.\w+$`)
+var reL1 = regexp.MustCompile(`^GPU\[(\d+)\]\.(SA\[\d+\]\..+)$`)
+var l1Index = map[string]int{}
 var reAgent = regexp.MustCompile(`^(L1|L2|CP)_(\d+)_(\d+)$`)
 
 // portRef maps a port name of the run to the port reference of the spec.
@@ -97,6 +104,13 @@ func portRef(name sim.RemotePort) ab.Rec {
 		b, _ := strconv.Atoi(m[3])
 		k := map[string]string{"L1": "l1", "L2": "l2", "CP": "cp"}[m[1]]
 		return ab.Rec{"g": g, "k": k, "b": b}
+	}
+	if m := reL1.FindStringSubmatch(s); m != nil { // a cache of a shader array of the real platform
+		g, _ := strconv.Atoi(m[1])
+		if _, ok := l1Index[m[2]]; !ok {
+			l1Index[m[2]] = len(l1Index)
+		}
+		return ab.Rec{"g": g, "k": "l1", "b": l1Index[m[2]]}
 	}
 	return ab.Rec{"g": -1, "k": s, "b": 0}
 }
@@ -866,6 +880,54 @@ func measureLocalRange(c *rdma.Comp, g int) (memRange, bool) {
 	return r, true
 }
 
+// tableRange measures, on engine c's RemoteRDMAAddressTable, the address range that is routed to port dst.
+func tableRange(c *rdma.Comp, dst sim.RemotePort) (memRange, bool) {
+	routed := func(a uint64) (ok bool) {
+		defer func() {
+			if recover() != nil {
+				ok = false
+			}
+		}()
+		return c.RemoteRDMAAddressTable.Find(a) == dst
+	}
+	const stride = 256 << 20
+	var inside uint64
+	found := false
+	for a := uint64(0); a < 1<<38; a += stride {
+		if routed(a) {
+			inside, found = a, true
+			break
+		}
+	}
+	if !found {
+		return memRange{}, false
+	}
+	lo, hi := uint64(0), inside
+	if routed(0) {
+		hi = 0
+	}
+	for hi-lo > line && hi != 0 {
+		mid := (lo + (hi-lo)/2) / line * line
+		if routed(mid) {
+			hi = mid
+		} else {
+			lo = mid
+		}
+	}
+	r := memRange{lo: hi}
+	lo, hi = inside, uint64(1<<40)
+	for hi-lo > line {
+		mid := (lo + (hi-lo)/2) / line * line
+		if routed(mid) {
+			lo = mid
+		} else {
+			hi = mid
+		}
+	}
+	r.hi = hi
+	return r, true
+}
+
 func platform(rec *ab.Recorder, gpuType string, n int, rng *rand.Rand, stats map[string]int) {
 	s := simulation.MakeBuilder().WithoutMonitoring().Build()
 	defer s.Terminate()
@@ -905,6 +967,14 @@ func platform(rec *ab.Recorder, gpuType string, n int, rng *rand.Rand, stats map
 			r := ranges[o]
 			lines := (r.hi - r.lo) / line
 			addrs := []uint64{r.lo, r.hi - line, r.lo + uint64(rng.Int63n(int64(lines)))*line, r.lo + uint64(rng.Int63n(int64(lines)))*line}
+			// what g's own routing table sends to o must be what o regards as its memory: probe the table's boundaries too
+			if tr, ok := tableRange(engines[g], engines[o].GetPortByName("RDMADataOutside").AsRemote()); ok {
+				for _, a := range []uint64{tr.lo, tr.hi - line} {
+					if a != r.lo && a != r.hi-line {
+						addrs = append(addrs, a)
+					}
+				}
+			}
 			for i, a := range addrs {
 				p := &Payload{K: "r", A: a, N: 4}
 				if i%2 == 1 {
@@ -931,6 +1001,83 @@ func platform(rec *ab.Recorder, gpuType string, n int, rng *rand.Rand, stats map
 	}
 	stats["roots"] += w.nRoot
 	stats["platform_runs"]++
+}
+
+// sysrun runs a shipped multi-GPU workload on the real timing platform with the real
+// engine and only listens on the RDMA ports: every environment event (L1s, L2s, the PCIe
+// network) is then produced by real components.  Hooks run in the engine's goroutine
+// (serial engine), so the log is totally ordered.
+func sysrun(rec *ab.Recorder, spec string, stats map[string]int) {
+	f := strings.Split(spec, ":") // workload:gputype:ngpu:size
+	n, _ := strconv.Atoi(f[2])
+	size, _ := strconv.Atoi(f[3])
+	sampling.InitSampledEngine()
+	s := simulation.MakeBuilder().WithoutMonitoring().Build()
+	timingconfig.MakeBuilder().WithSimulation(s).WithNumGPUs(n).WithGPUType(f[1]).WithMagicMemoryCopy().Build()
+	cfg := Config{NGpu: n, Buf: 128}
+	ranges := map[int]memRange{}
+	engines := map[int]*rdma.Comp{}
+	var gpus []int
+	for g := 1; g <= n; g++ {
+		c := s.GetComponentByName(fmt.Sprintf("GPU[%d].RDMA", g)).(*rdma.Comp)
+		engines[g] = c
+		r, ok := measureLocalRange(c, g)
+		if !ok {
+			panic("GPU " + strconv.Itoa(g) + " regards no address as local")
+		}
+		ranges[g] = r
+		cfg.Comps = append(cfg.Comps, g)
+		gpus = append(gpus, g)
+	}
+	var rl [][3]uint64
+	for g := 1; g <= n; g++ {
+		rl = append(rl, [3]uint64{uint64(g), ranges[g].lo / line, ranges[g].hi / line})
+	}
+	rec.Emit("Reset", ab.Rec{"comps": cfg.Comps, "ranges": rl, "il": 1, "nb": 0, "buf": cfg.Buf, "ngpu": n,
+		"platform": f[1], "unit": line, "workload": spec, "gc": 1})
+	w := baseWorld(rec, cfg)
+	w.unit, w.nobank = line, true
+	for g := 1; g <= n; g++ {
+		w.attach(g, engines[g], nil)
+	}
+	d := s.GetComponentByName("Driver").(*driver.Driver)
+	d.Run()
+	func() {
+		defer func() {
+			if r := recover(); r != nil {
+				w.dead = true
+				rec.Emit("Panic", ab.Rec{"msg": fmt.Sprint(r)})
+			}
+		}()
+		switch f[0] {
+		case "vectoradd":
+			b := vectoradd.NewBenchmark(d)
+			b.Width, b.Height = uint32(size), 64
+			b.SelectGPU(gpus)
+			b.Run()
+		case "matrixtranspose":
+			b := matrixtranspose.NewBenchmark(d)
+			b.Width = size
+			b.SelectGPU(gpus)
+			b.Run()
+		case "fir":
+			b := fir.NewBenchmark(d)
+			b.Length = size
+			b.SelectGPU(gpus)
+			b.Run()
+		default:
+			panic("unknown workload " + f[0])
+		}
+	}()
+	d.Terminate()
+	s.Terminate()
+	if !w.dead {
+		rec.Emit("Quiesce", ab.Rec{"workload": spec})
+	}
+	for g := range w.comps {
+		stats["roots"] += w.count[g]["FwdOut"]
+	}
+	stats["sysruns"]++
 }
 
 func randConfig(rng *rand.Rand) Config {
@@ -970,6 +1117,7 @@ func main() {
 	reqs := flag.Int("reqs", 24, "requests per random run")
 	seed := flag.Int64("seed", 1, "seed")
 	plat := flag.String("platform", "", "comma separated type:ngpu list of real platforms to probe, e.g. r9nano:2,mi300a:4")
+	sys := flag.String("sysrun", "", "comma separated workload:gputype:ngpu:size list of real multi-GPU timing runs to listen to")
 	flag.Parse()
 
 	f, err := os.Create(*out)
@@ -1031,6 +1179,12 @@ func main() {
 			parts := strings.Split(item, ":")
 			n, _ := strconv.Atoi(parts[1])
 			platform(rec, parts[0], n, rng, stats)
+			traces++
+		}
+	}
+	if *sys != "" {
+		for _, item := range strings.Split(*sys, ",") {
+			sysrun(rec, item, stats)
 			traces++
 		}
 	}
